@@ -92,6 +92,9 @@ func TestC13Keepalive(t *testing.T) {
 				Ping: [2]time.Duration{s.pc, s.ps}, Pong: [2]time.Duration{s.qc, s.qs},
 				Msgs: [2]int{2, 2}, Horizon: 5 * time.Hour, RecvForever: true,
 				CloseScript: func(r *gbnrun.Run) {},
+				// the handshake timeout must exceed the round trip, or
+				// resent SYNs stray into the data phase
+				Extra: []gbn.TimeoutOptions{gbn.WithHandshakeTimeout(4*lat + time.Second)},
 			}
 			dur := 10000 * time.Second
 			if !thorough {
